@@ -180,7 +180,14 @@ func H_DecodePatch() {
 	case 0: // array of operation objects
 		arr := &JV{K: JArr, Kids: []*JV{}}
 		n := 1 + vx.Choose("nel", nel)
+		fixed := vx.ParamOr("fixed", -1) // index of an element that is a fixed valid operation (keeps two-element families tractable)
 		for i := 0; i < n; i++ {
+			if i == fixed && n > 1 {
+				v := symNum("e" + itoa(i) + ".fixed")
+				specs = append(specs, opSpec{op: memberSpec{mString, jStrS("add")}, path: memberSpec{mString, jStrS("/f")}, value: memberSpec{mNumber, v}, opName: []byte("add")})
+				arr.Kids = append(arr.Kids, jObj().with("op", jStrS("add")).with("path", jStrS("/f")).with("value", v))
+				continue
+			}
 			s, o := genOpSpec("e" + itoa(i) + ".")
 			specs = append(specs, s)
 			arr.Kids = append(arr.Kids, o)
